@@ -293,8 +293,8 @@ v("c22-check-return-ignores-switch", "C22", DS,
   "    def check_return(self, *, fname: str, return_value) -> None:\n        if not SchemaCheckSwitch().is_on():\n            return\n",
   "    def check_return(self, *, fname: str, return_value) -> None:\n")
 v("c22-check-args-switch-polarity", "C22", DS,
-  "    def check_args(self, *, arg_names: List[str], fname: str, args, kwargs) -> None:\n        if not SchemaCheckSwitch().is_on():\n            return",
-  "    def check_args(self, *, arg_names: List[str], fname: str, args, kwargs) -> None:\n        if SchemaCheckSwitch().is_on():\n            return")
+  "        if not SchemaCheckSwitch().is_on():\n            return\n        assert isinstance(fname, str)\n        # check positional args (by name)",
+  "        if SchemaCheckSwitch().is_on():\n            return\n        assert isinstance(fname, str)\n        # check positional args (by name)")
 v("c22-wrapped-returns-copy", "C22", DS,
   "            return type_check_return_value\n", "            return type_check_return_value.copy()\n")
 v("c22-wrapped-rebinds", "C22", DS,
@@ -954,7 +954,7 @@ v("d61-key-without-cell-types", "C25", EC, "        [type(v).__name__ for v in d
 v("d62-absent-arg-specs-dereferenced", "C22", DS,
   "        self.arg_specs = _prep_schema_specification(\n            arg_specs if arg_specs is not None else dict()\n        )\n", "        self.arg_specs = _prep_schema_specification(arg_specs)\n")
 v("d63-null-test-elementwise", "C22", DS,
-  "    res = pd.isnull(v)\n    if isinstance(res, (bool, np.bool_)):\n        return bool(res)\n    return False  # a list, array or frame is a value, not a null\n", "    return pd.isnull(v)\n")
+  "    res = pd.isnull(v)\n    if isinstance(res, (bool, np.bool_)):\n        return bool(res)\n    return False\n", "    return pd.isnull(v)\n")
 v("d64-null-arguments-type-checked", "C22", DS,
   "        elif (not isinstance(expected_type, dict)) and _is_null(observed_value):\n            # nulls are not considered to have a type\n            return None\n", "")
 v("d65-binding-by-index", "C22", DS,
@@ -994,7 +994,7 @@ v("d88-hash-reads-columns-by-label", "C25", EC,
   "        [type(v).__name__ for v in d.iloc[:, j]]\n        for j in range(d.shape[1])\n        if str(d.iloc[:, j].dtype) == \"object\"\n",
   "        [type(v).__name__ for v in d[c]]\n        for c in d.columns\n        if str(d[c].dtype) == \"object\"\n")
 v("d89-bound-kwargs-not-flattened", "C22", DS,
-  "                    if p_def.kind is p_def.VAR_KEYWORD:\n                        # keywords caught by **kwargs are named arguments\n                        check_kwargs.update(check_kwargs.pop(p_name, {}))\n                    elif p_def.kind is p_def.VAR_POSITIONAL:",
+  "                    if p_def.kind is p_def.VAR_KEYWORD:\n                        # keywords caught by **kwargs are named arguments\n                        extra_keywords = check_kwargs.pop(p_name, {})\n                    elif p_def.kind is p_def.VAR_POSITIONAL:",
   "                    if p_def.kind is p_def.VAR_POSITIONAL:")
 
 
@@ -1044,3 +1044,26 @@ v("d95-select-columns-empties-select-list-c09", "C09", SM,
 v("d96-union-raw-operand-not-wrapped", "C08", SM, "        if sql_right.terms is None:\n            operand_name = \"concat_rows_right_\"", "        if False:\n            operand_name = \"concat_rows_right_\"")
 v("d98-polars-nunique-unsigned", "C03", PM, "        .n_unique()\n        .cast(pl.Int64),", "        .n_unique(),")
 v("d99-polars-empty-counts-null", "C09", PM, "                    {c: [0 if c in counting_columns else None] for c in res.columns},", "                    {c: [None] for c in res.columns},")
+
+DSC = "data_schema.py"
+v("d100-null-test-on-any-object", "C22", DSC, "    if not pd.api.types.is_scalar(v):\n        return False  # a list, array, index or frame is a value, not a null\n", "")
+v("d101-cells-by-label", "C22", DSC, "                    for vi in _column_cells(d, col_name):", "                    for vi in d[col_name]:")
+v("d102-empty-varargs-missing", "C22", DSC, "                        else:\n                            no_values.append(p_name)\n", "")
+v("d102-caught-keyword-overwrites", "C22", DSC, "                        extra_keywords = check_kwargs.pop(p_name, {})", "                        check_kwargs.update(check_kwargs.pop(p_name, {}))")
+v("d102-index-unbounded", "C22", DSC, "        for i in range(min(len(args), len(arg_names))):", "        for i in range(len(args)):")
+v("d102-twin-zip-names", "C22", DSC, "        for i in range(min(len(args), len(arg_names))):\n            k = arg_names[i]\n            observed_value = args[i]", "        for k, observed_value in zip(arg_names, args):", expect="silent")
+
+SQ = "SQLite.py"
+v("d103-sqlite-floor-int-valued", "C05", SQ, "            \"floor\": functools.partial(_wrap_scalar_fn, _floor_fn),", "            \"floor\": functools.partial(_wrap_scalar_fn, math.floor),")
+v("d103-sqlite-floor-int-valued-c01", "C01", SQ, "            \"floor\": functools.partial(_wrap_scalar_fn, _floor_fn),", "            \"floor\": functools.partial(_wrap_scalar_fn, math.floor),")
+v("d103-sqlite-ceil-helper-unguarded", "C05", SQ, "    return math.ceil(x) if isinstance(x, int) else float(math.ceil(x))", "    return math.ceil(x)")
+v("d103-twin-numpy-floor", "C05", SQ, "            \"floor\": functools.partial(_wrap_scalar_fn, _floor_fn),", "            \"floor\": functools.partial(_wrap_scalar_fn, numpy.floor),", expect="silent")
+v("d104-concat-refuses-empty-request", "C08", SM, "            # only the rows are asked for (a count above): carry one column\n            using = OrderedSet(concat_node.column_names[:1])", "            raise ValueError(\"must select at least one column\")")
+v("d104-join-refuses-empty-request", "C01", SM, "            # only the rows are asked for (a count above): carry one column\n            using = OrderedSet(join_node.column_names[:1])", "            raise ValueError(\"join must use or select at least one column\")")
+v("d105-sql-blocks-to-rows-row-major", "C08", SM,
+  "        for vc in control_value_cols:  # column by column: the order of record_spec.row_columns\n            for i in range(ct.shape[0]):",
+  "        for i in range(ct.shape[0]):\n            for vc in control_value_cols:")
+v("d105-pandas-rows-by-observed-levels", "C08", PB, "        res = res.reindex(columns=blocks_in.row_columns)\n", "")
+v("d105-polars-rows-by-observed-levels", "C17", PM, "        res = res.select(\n            [\n                pl.col(c) if c in res.columns else pl.lit(None).alias(c)\n                for c in blocks_in.row_columns\n            ]\n        )\n", "")
+v("d105-polars-blocks-keys-first", "C03", PM, "        res = res.select(blocks_out.block_columns)  # the declared column order\n", "")
+v("d105-pandas-blocks-keys-first", "C17", PB, "        res = res.loc[:, blocks_out.block_columns]  # the declared column order\n", "")
